@@ -474,6 +474,7 @@ func (db *DB) doProcessIterations(iterations []*iteration) {
 	}
 
 	iterations[0].t.log.Debugf("Coalescing %d iterations", len(iterations))
+	verifCoalesced(iterations[0].t, len(iterations))
 
 	remainingIterations := make(map[int]*iteration, len(iterations))
 	for i, it := range iterations {
